@@ -97,6 +97,9 @@ func str(r *rand.Rand, o Opts) []byte {
 	if r.Intn(20) == 0 {
 		n = 30 + r.Intn(80) // crosses 32/64-byte windows
 	}
+	if o.StrMaxLen >= 8 && r.Intn(60) == 0 {
+		n = 200 + r.Intn(4000) // outgrows the string buffer in one step
+	}
 	var b []byte
 	for len(b) < n {
 		switch x := r.Intn(12); {
